@@ -15,6 +15,8 @@ for name in sorted(res):
     r = res[name]
     if not r.get('applies'):
         continue
+    if name.startswith('revert_') and not os.path.exists(os.path.join(V, 'selftest', 'patches', name + '.diff')):
+        continue    # a row of a patch that has since been renamed / regenerated
     what = meta.get(name, {}).get('needs_to_manifest', '')
     if name.startswith('revert_'):
         what = 'reverse patch of the `fix:` commit "' + name.split('_', 2)[2].replace('_', ' ').strip() + '…"'
